@@ -5,7 +5,7 @@ TRUSTED_BASE = [
     "Coq 8.16.1 kernel; vm_compute (generated obligations and evaluation of the model on harness histories); native_compute not used",
     "axioms: none declared in the development; Print Assumptions output per theorem is recorded under coverage.axioms_by_theorem",
     "correspondence check: Go harness (/verif/harness) driving the real packages built from /repo with -tags 'test verif'; generators, canonicalisers and property oracles are trusted",
-    "translators: harness/suites/consts.go (constants + go/ast literal extraction), harness/suites/layouts.go (fixed-width codec layouts), harness/suites/skeletons.go (lock/IO skeletons)",
+    "translators: harness/suites/consts.go (constants + go/ast literal extraction), harness/suites/layouts.go + layoutprobe.go (fixed-width codec layouts from the source, confirmed or replaced by bit probing of the compiled functions), harness/suites/skeletons.go (lock/IO skeletons)",
     "Go toolchain, OS",
 ]
 
